@@ -4,7 +4,10 @@ use crate::xtype::{Bind, XCompoundSpec, XFuncSpec, XType};
 use crate::xvalue::{ManagedXValue, NativeCallable, XFunction};
 use crate::{Declaration, Identifier};
 use std::borrow::Borrow;
+#[cfg(not(xray_verif))]
 use std::collections::HashSet;
+#[cfg(xray_verif)]
+use crate::verif::CtHashSet as HashSet;
 
 use derivative::Derivative;
 
